@@ -328,6 +328,19 @@ fn u8_family(acc: &mut Acc, inputs: &[Vec<u8>]) {
                 }
             };
             cmp("io_input", guarded(|| run_u8(&u8_grammars::<chumsky::input::IoInput<std::io::Cursor<Vec<u8>>>>()[gi].1, chumsky::input::IoInput::new(std::io::Cursor::new(w.clone())))));
+            // a reader that has already been read from: the input is what lies behind the reader's position
+            for (kind, prefix) in [("io_input_mid_stream", b"a1 ,b".to_vec()), ("io_input_mid_stream_same_prefix", w.clone())] {
+                cmp(
+                    kind,
+                    guarded(|| {
+                        let mut v = prefix.clone();
+                        v.extend_from_slice(w);
+                        let mut c = std::io::Cursor::new(v);
+                        c.set_position(prefix.len() as u64);
+                        run_u8(&u8_grammars::<chumsky::input::IoInput<std::io::Cursor<Vec<u8>>>>()[gi].1, chumsky::input::IoInput::new(c))
+                    }),
+                );
+            }
             cmp("stream_u8", guarded(|| run_u8(&u8_grammars::<chumsky::input::Stream<std::vec::IntoIter<u8>>>()[gi].1, chumsky::input::Stream::from_iter(w.clone()))));
             if w.len() == 3 {
                 let arr: &[u8; 3] = (&w[..]).try_into().unwrap();
